@@ -80,7 +80,7 @@ def sensitivity(flt):
                 continue
             for prop in props:
                 t0 = time.time()
-                r = subprocess.run([PY, RUNNER, prop, "--tier", "quick", "--repo", wt, "--no-evidence", "--no-fresh", "--no-shrink", "--lifetimes", "16", "--budget", "90"], capture_output=True, text=True)
+                r = subprocess.run([PY, RUNNER, prop, "--tier", "quick", "--repo", wt, "--no-evidence", "--no-fresh", "--no-shrink", "--lifetimes", "16", "--budget", "150"], capture_output=True, text=True)
                 detected = r.returncode == 1 and "VIOLATION property=" + prop in r.stdout
                 vl = [ln for ln in r.stdout.splitlines() if ln.startswith("VIOLATION")]
                 cls = [ln.split("violation class ")[1].split(" in ")[0] for ln in r.stderr.splitlines() if "] violation class " in ln]
